@@ -119,6 +119,10 @@ class Rec:
         """clause: clause id of appendix A; sig: categorical signature (dict of str);
         keys: the subset of signature keys that identify the violation class (default: all);
         case: JSON-able descriptor sufficient to re-run this path inside its unit."""
+        if "what" in sig:
+            import re
+
+            sig = dict(sig, what=re.sub(r"-?[0-9]+(\.[0-9]+)?(e-?[0-9]+)?", "#", str(sig["what"])))
         if keys is not None:
             case = dict(case or {}, full_signature={k: str(v) for k, v in sig.items()})
             sig = {k: v for k, v in sig.items() if k in keys}
